@@ -321,10 +321,10 @@ theorem program_norem (c : Cfg) (rq : Req) (hs : renameOnlyStrat c.strat) (hd : 
     · rfl
   | mpu =>
     simp only [program, hk, List.mem_append, List.mem_cons, List.not_mem_nil, or_false] at ha
-    rcases ha with ((((rfl | h) | rfl) | h) | h)
+    rcases ha with ((((rfl | rfl) | h) | h) | h)
+    · rfl
     · rfl
     · exact hset _ a h
-    · rfl
     · exact hset _ a h
     · exact hpub a h
   | get =>
